@@ -576,7 +576,7 @@ func (ex *Exec) assume(c Value) {
 }
 
 func (ex *Exec) newInput(name string, w int) *Term {
-	nm := fmt.Sprintf("%s#%d", sanitize(name), len(ex.inputs))
+	nm := fmt.Sprintf("%s#%d:%d", sanitize(name), len(ex.inputs), w)
 	t := ex.ts.Var(nm, w)
 	ex.inputs = append(ex.inputs, inputRec{Name: nm, W: w, T: t})
 	ex.modelOK = ex.modelOK // unconstrained new var: model (default 0) still fine
